@@ -81,9 +81,44 @@ func (w *Walker) walk(fr *Frame, visit func(fr *Frame)) {
 	if fr.Depth >= maxChainDepth || fr.Fn.Blocks == nil {
 		return
 	}
+	// closures passed as arguments are entered at the use site
+	for _, b := range fr.Fn.Blocks {
+		for _, ins := range b.Instrs {
+			ci, ok := ins.(ssa.CallInstruction)
+			if !ok {
+				continue
+			}
+			for _, a := range ci.Common().Args {
+				mc := staticClosureOf(a, 0)
+				if mc == nil {
+					continue
+				}
+				fn, _ := mc.Fn.(*ssa.Function)
+				if fn == nil || fn.Blocks == nil || onChain(fr, fn) {
+					continue
+				}
+				// the creating frame is on the chain (the closure's lexical parent)
+				var creator *Frame
+				for f := fr; f != nil; f = f.Parent {
+					if f.Fn == mc.Parent() {
+						creator = f
+						break
+					}
+				}
+				if creator == nil {
+					creator = fr
+				}
+				nfr := &Frame{Fn: fn, Parent: creator, MC: mc, Via: fr, ViaSite: ci, Depth: fr.Depth + 1}
+				w.walk(nfr, visit)
+			}
+		}
+	}
 	for _, e := range w.cx.Edges(fr.Fn) {
 		if e.Callee.Blocks == nil || onChain(fr, e.Callee) {
 			continue
+		}
+		if e.Kind == "closure" && w.cx.closurePassedAsArg(e.Callee) {
+			continue // entered where it is passed as an argument
 		}
 		if !isIrismodFunc(e.Callee) && e.Callee.Synthetic == "" {
 			continue
@@ -434,21 +469,134 @@ func (w *Walker) FactsAt(fr *Frame, site ssa.Instruction) []FactT {
 		}
 	}
 	cur := site
-	for f := fr; f != nil; f = f.Parent {
+	for f := fr; f != nil; {
 		if cur != nil {
 			for _, ft := range w.blockFacts(f, cur.Block(), 0) {
 				add(ft)
 			}
 		}
-		if f.Call != nil {
+		switch {
+		case f.Via != nil:
+			cur = f.ViaSite
+			f = f.Via
+			continue
+		case f.Call != nil:
 			cur = f.Call
-		} else if f.MC != nil {
+		case f.MC != nil:
 			cur = f.MC
-		} else {
+		default:
 			cur = nil
 		}
+		f = f.Parent
 	}
 	return out
+}
+
+// staticClosureOf resolves a value to the closure it denotes without frames:
+// a MakeClosure, a local variable holding one, or a free variable bound to one.
+func staticClosureOf(v ssa.Value, depth int) *ssa.MakeClosure {
+	if depth > 6 {
+		return nil
+	}
+	switch x := v.(type) {
+	case *ssa.MakeClosure:
+		return x
+	case *ssa.ChangeType:
+		return staticClosureOf(x.X, depth+1)
+	case *ssa.UnOp:
+		if x.Op != token.MUL {
+			return nil
+		}
+		switch a := x.X.(type) {
+		case *ssa.Alloc:
+			var mc *ssa.MakeClosure
+			n := 0
+			for _, r := range *a.Referrers() {
+				if st, ok := r.(*ssa.Store); ok && st.Addr == a {
+					n++
+					mc = staticClosureOf(st.Val, depth+1)
+				}
+			}
+			if n == 1 {
+				return mc
+			}
+		case *ssa.FreeVar:
+			return freeVarClosure(a, depth+1)
+		}
+	case *ssa.FreeVar:
+		return freeVarClosure(x, depth+1)
+	}
+	return nil
+}
+
+func freeVarClosure(fv *ssa.FreeVar, depth int) *ssa.MakeClosure {
+	fn := fv.Parent()
+	idx := -1
+	for i, f := range fn.FreeVars {
+		if f == fv {
+			idx = i
+		}
+	}
+	p := fn.Parent()
+	if p == nil || idx < 0 {
+		return nil
+	}
+	var res *ssa.MakeClosure
+	n := 0
+	for _, b := range p.Blocks {
+		for _, ins := range b.Instrs {
+			if mc, ok := ins.(*ssa.MakeClosure); ok && mc.Fn == fn && idx < len(mc.Bindings) {
+				n++
+				bind := mc.Bindings[idx]
+				// captured by reference: the binding is the variable's address
+				if a, ok := bind.(*ssa.Alloc); ok {
+					var st0 ssa.Value
+					k := 0
+					for _, r := range *a.Referrers() {
+						if st, ok := r.(*ssa.Store); ok && st.Addr == a {
+							k++
+							st0 = st.Val
+						}
+					}
+					if k == 1 {
+						res = staticClosureOf(st0, depth+1)
+					}
+				} else {
+					res = staticClosureOf(bind, depth+1)
+				}
+			}
+		}
+	}
+	if n == 1 {
+		return res
+	}
+	return nil
+}
+
+// closurePassedAsArg: the anonymous function is (statically) passed as a call
+// argument somewhere in irismod code.
+func (cx *Ctx) closurePassedAsArg(fn *ssa.Function) bool {
+	if cx.passed == nil {
+		cx.passed = map[*ssa.Function]bool{}
+		for _, f := range cx.P.AllFuncs {
+			for _, b := range f.Blocks {
+				for _, ins := range b.Instrs {
+					ci, ok := ins.(ssa.CallInstruction)
+					if !ok {
+						continue
+					}
+					for _, a := range ci.Common().Args {
+						if mc := staticClosureOf(a, 0); mc != nil {
+							if g, ok := mc.Fn.(*ssa.Function); ok {
+								cx.passed[g] = true
+							}
+						}
+					}
+				}
+			}
+		}
+	}
+	return cx.passed[fn]
 }
 
 // exitFacts: facts at a success exit: the dominating facts of its block plus,
